@@ -18,6 +18,15 @@ def mk_req(r, via="ctor"):
         assert (r["ver"], r["type"], r["shf"], r["flags"]) == (0, 1, 1, 3)
         return RequestId.from_pus_tc(mk_tc({"apid": r["apid"], "seq": r["count"], "ack": 15, "service": 17,
                                             "subservice": 1, "source": 0, "data": [1, 2]}))
+    if via == "mutate":
+        # a history: another ID whose views are used once (they may cache), then the public attributes are reassigned
+        q = RequestId(PacketId(PacketType(1 - r["type"]), not bool(r["shf"]), (r["apid"] + 1) % 2048),
+                      PacketSeqCtrl(SequenceFlags((r["flags"] + 1) % 4), (r["count"] + 1) % 16384), (r["ver"] + 1) % 8)
+        q.as_u32(), hash(q), q == q, q.pack()
+        q.tc_packet_id = PacketId(PacketType(r["type"]), bool(r["shf"]), r["apid"])
+        q.tc_psc = PacketSeqCtrl(SequenceFlags(r["flags"]), r["count"])
+        q.ccsds_version = r["ver"]
+        return q
     return RequestId(PacketId(PacketType(r["type"]), bool(r["shf"]), r["apid"]),
                      PacketSeqCtrl(SequenceFlags(r["flags"]), r["count"]), r["ver"])
 
